@@ -59,7 +59,7 @@ CLAIMS = {
  "C10": ("finite-predicate path evaluation of every selection policy over pools of 0..3 upstreams and all availability/count/random outcomes; truth table of available()",
          "Decided exhaustively within the bound: a policy only returns an upstream that available() accepted on that path, never dereferences an empty slot, returns nil when none is available and (first, random, least_conn) some "
          "upstream when one is; first picks the earliest, least_conn a minimal one; available = healthy and not full with every peer consulted; round_robin advances its counter per probe; ip_hash hashes only upstream and client. "
-         "Pool states (availability and, for least_conn, connection counts of every upstream) are fixed per evaluation; round_robin is evaluated for every starting counter residue and must return an upstream when one is available. random_choose's must-return clause and distributions are not claimed.",
+         "Pool states (availability and, for least_conn, connection counts of every upstream) are fixed per evaluation; round_robin is evaluated for every starting counter residue and must return an upstream when one is available. Distributions and the stability of ip_hash under membership changes are not claimed.",
          "DESIGN.md section 4 C10"),
  "C11": ("pairing/path rules over go/ssa, who-may-write census of the counters, path evaluation of the retry loop and of healthy/full/available",
          "Decided: every remembered failure (+1) starts a goroutine that cannot end without the -1 on the same peer after waiting; counters are written only by their atomic add/CAS in countFail/countConn/setHealthy; "
